@@ -1,0 +1,35 @@
+//go:build verif
+
+package wpool
+
+// VerifState is a snapshot of the pool's queues for external verification
+// tooling. It is exact only while no Send, flusher or worker is mid-step.
+type VerifState struct {
+	ChanLen       int  // jobs waiting in the channel
+	ChanCap       int  // capacity of the channel
+	Deferred      bool // the deferred list is not empty
+	FlusherLocked bool // the single-flusher try-lock is held
+}
+
+// VerifSnapshot reads the queues. The list is inspected under its lock; the
+// flusher try-lock is probed (taken and released at once when it was free).
+func (p *Pool) VerifSnapshot() VerifState {
+	var st VerifState
+
+	if p.ch != nil {
+		st.ChanLen = len(p.ch)
+		st.ChanCap = cap(p.ch)
+	}
+
+	p.listM.Lock()
+	st.Deferred = !p.el.IsEmpty()
+	p.listM.Unlock()
+
+	if p.lazySendM.TryLock() {
+		p.lazySendM.Unlock()
+	} else {
+		st.FlusherLocked = true
+	}
+
+	return st
+}
